@@ -108,6 +108,16 @@ def viol(ob, ex, detail, key, r, n):
     return o
 
 
+_FRAMED_STATE = re.compile(r'Framed(Read|Write)?::(read_buffer_mut|write_buffer_mut|from_parts|into_parts|with_capacity|map_decoder|map_encoder|decoder_mut|encoder_mut)$|FramedParts::|LengthDelimitedCodec::set_max_frame_length$')
+
+
+def _framed_state(r):
+    for e in r.events:
+        if e.kind == 'call' and _FRAMED_STATE.search(str(e.name)):
+            return str(e.name)
+    return None
+
+
 def ob_write(report, kind):
     fname = f'write_{kind}'
     src = REQ if kind == 'request' else RESP
@@ -123,6 +133,10 @@ def ob_write(report, kind):
         msg = f'gen.{ups[0]}'              # the message parameter, found by its type
         head, body_ = f'{msg}.{mf.index("head")}', f'{msg}.{mf.index("body")}'
         for r in res:
+            _fs = _framed_state(r)
+            if _fs:
+                return viol(ob, ex, f'{fname} reaches into the framed stream\'s codec/buffer state ({_fs.split("::")[-1]}): the frames of this message are not encoded with the one configured codec',
+                            f'{fname}-framed-state', r, len(res))
             if r.tag in ('panic', 'diverge'):
                 # documented: serialization failure is unwrapped with expect()
                 if any(e.kind == 'ser' for e in r.events) and any('ser_result' in str(c) for c in r.pc):
@@ -182,6 +196,10 @@ def ob_read(report, kind):
         n_ok = n_err = 0
         seen_none = set()
         for r in res:
+            _fs = _framed_state(r)
+            if _fs:
+                return viol(ob, ex, f'{fname} reaches into the framed stream\'s codec/buffer state ({_fs.split("::")[-1]}): the frames of this message are not decoded with the one configured codec '
+                            '(e.g. a different limit for one of them)', f'{fname}-framed-state', r, len(res))
             if r.tag in ('panic', 'diverge', 'loop-bound'):
                 return viol(ob, ex, f'{fname} can {r.tag} on some input', f'{fname}-panic', r, len(res))
             pcs = [str(z3.simplify(c)).replace('\n', ' ') for c in r.pc]
